@@ -310,20 +310,51 @@ func prefixesOf(s sim.Source, pool []*model.Pattern) []string {
 }
 
 // prefillFanout registers every fan-out sibling of the pool (patterns "/f/?x") for GET so that one node really has more
-// than 50 children (the linear/binary search switch).
-func prefillFanout(w *world.World, set *model.Set, cfg world.Cfg, pool []*model.Pattern, nextTag *int) (string, bool) {
+// than 50 children (the linear/binary search switch), and every element of the deep chain (patterns "/~d...") so that
+// one branch really is deeper than 25 nodes.
+func prefillFanout(src sim.Source, w *world.World, set *model.Set, cfg world.Cfg, pool []*model.Pattern, nextTag *int) (string, bool) {
 	n := 0
+	reg := func(i int) (string, bool) {
+		*nextTag++
+		op := WOp{Kind: "handle", Method: "GET", Pat: i, Tag: *nextTag}
+		want := applyModel(set, cfg, pool, op)
+		out := applyFox(w, w.R, pool, op)
+		if !sameOut(out, want) {
+			return fmt.Sprintf("shape prefill %v returned %v, model %v", op, out, want), false
+		}
+		n++
+		return "", true
+	}
+	fan := false
 	for i, p := range pool {
-		if len(p.Raw) == 5 && strings.HasPrefix(p.Raw, "/f/") && p.Raw[4] == 'x' {
-			*nextTag++
-			op := WOp{Kind: "handle", Method: "GET", Pat: i, Tag: *nextTag}
-			want := applyModel(set, cfg, pool, op)
-			out := applyFox(w, w.R, pool, op)
-			if !sameOut(out, want) {
-				return fmt.Sprintf("fan-out prefill %v returned %v, model %v", op, out, want), false
+		isFan := len(p.Raw) == 5 && strings.HasPrefix(p.Raw, "/f/") && p.Raw[4] == 'x'
+		fan = fan || isFan
+		if isFan || strings.HasPrefix(p.Raw, "/~d") {
+			if msg, ok := reg(i); !ok {
+				return msg, false
 			}
-			n++
 		}
 	}
-	return fmt.Sprintf("<fan-out prefill: %d siblings under /f/ for GET>", n), n > 0
+	if fan {
+		// writes through a wildcard edge of the wide node (its edges are found by binary search above 50 children)
+		var later []string
+		switch src.Intn("fanwild", 4) {
+		case 1:
+			later = []string{"/f/*{q}", "/f/*{q}/t"}
+		case 2:
+			later = []string{"/f/{p}", "/f/{p}/t"}
+		case 3:
+			later = []string{"/f/{p}", "/f/*{q}", "/f/*{q}/t", "/f/{p}/t"}
+		}
+		for _, raw := range later {
+			for i, p := range pool {
+				if p.Raw == raw {
+					if msg, ok := reg(i); !ok {
+						return msg, false
+					}
+				}
+			}
+		}
+	}
+	return fmt.Sprintf("<shape prefill: %d routes for GET (siblings and wildcard children under /f/ and/or the deep chain under /~)>", n), n > 0
 }
